@@ -38,3 +38,10 @@ mod tests {
         assert_eq!(index, MutateIndex(0));
     }
 }
+
+#[cfg(replicon_verif)]
+impl MutateIndex {
+    pub(crate) fn verif_get(&self) -> u16 {
+        self.0
+    }
+}
